@@ -18,8 +18,8 @@ def _load_plans():
     return plans.PLANS
 
 EXTRA = {
- "C03": dict(level="proof", explanation="format_value verified per schema slot x value kind x quote against spec.render; structure by the _format/pprint/block-writer contracts", b=[], e=[]),
- "C16": dict(level="proof", explanation="every line-producing function of pprint.py verified against the layout clauses for symbolic indent/level/spacer/newline/flags; unbounded dictionaries by loop contracts", b=[], e=[]),
+ "C03": dict(level="proof", explanation="format_value verified per schema slot x value kind x quote against spec.render; structure by the _format/pprint/block-writer contracts", b=["b_reader", "b_numbers"], e=[]),
+ "C16": dict(level="proof", explanation="every line-producing function of pprint.py verified against the layout clauses for symbolic indent/level/spacer/newline/flags; unbounded dictionaries by loop contracts", b=["b_layout"], e=[]),
 }
 
 DESIGN_REF = "DESIGN.md §4 "
